@@ -103,13 +103,36 @@ def family_redecl():
     return out
 
 
+def family_affix():
+    """++ and --, prefix and postfix, on int and float variables, with the VALUE of the expression used: as initialiser, in a loop
+    condition, as operand and as array index."""
+    V, L, B = A.var, A.lit_i, A.bin_
+    out = []
+    for t in (A.INT, A.FLOAT):
+        for op in ("+", "-"):
+            for pre in (True, False):
+                e = lambda: A.inc("n", op, pre)  # noqa
+                bodies = [
+                    [A.decl("a", t, e()), A.ret(B("+", B("*", V("a"), L(100)), V("n")))],
+                    [A.decl("c", A.INT, L(0)), A.while_(B(">", e(), L(0)) if op == "-" else B("<", e(), L(4)), A.block([A.estmt(A.casg("+", V("c"), L(1)))])), A.ret(B("+", B("*", V("c"), L(100)), V("n")))],
+                    [A.decl("a", t, B("+", e(), B("*", V("n"), L(10)))), A.ret(B("+", V("a"), V("n")))],
+                ]
+                if t is A.INT:
+                    bodies.append([A.decl("t", A.arr(A.INT, [6])), A.estmt(A.asg(A.idx(V("t"), L(2)), L(5))), A.estmt(A.asg(A.idx(V("t"), L(3)), L(7))), A.estmt(A.asg(A.idx(V("t"), L(1)), L(3))),
+                                   A.decl("a", A.INT, A.idx(V("t"), e())), A.ret(B("+", B("*", V("a"), L(100)), V("n")))])
+                for body in bodies:
+                    prog = A.prog([], [A.func("f", [("n", t)], A.FLOAT, A.block(body), True)])
+                    out.append((prog, [({"n": A.enc(v, t)}, {}) for v in ((2, 3) if t is A.INT else (2.0, 2.5))]))
+    return out
+
+
 _FAM = None
 
 
 def all_family():
     global _FAM
     if _FAM is None:
-        _FAM = family() + family_redecl()
+        _FAM = family() + family_affix() + family_redecl()
     return _FAM
 
 
@@ -261,7 +284,7 @@ def run(ctx, args):
         raise common.Machinery(f"only {judged} of {len(cases)} runs were judged: the generator drifted out of the property's domain")
     return common.finish(
         ctx, level="model_checking", evaluations=len(cases), distinct_nontrivial=len(nontrivial),
-        rule=f"a deterministic family of {len(all_family())} programs (13 operators x declared types x initialiser kinds of both operands; declarations without initialiser re-executed in for/while/do bodies, branches and callees for int, float, structure fields, array elements) and {n} seeded programs of the scalar core (int/float scalars, local arrays and structs, all 13 operators, = += -= *= /=, ++/--, if/else, "
+        rule=f"a deterministic family of {len(all_family())} programs (13 operators x declared types x initialiser kinds of both operands; ++ / -- in prefix and postfix form with their value used; declarations without initialiser re-executed in for/while/do bodies, branches and callees for int, float, structure fields, array elements) and {n} seeded programs of the scalar core (int/float scalars, local arrays and structs, all 13 operators, = += -= *= /=, ++/--, if/else, "
              "for/while/do with break/continue, early return, globals, calls) x 3 inputs; each case is one behaviour of NslSem in TLC "
              "(invariants Finished, FrameExists, GlobalsStable; properties FrameIsolation, CallDiscipline) and one run of the real compiler + VM; "
              "returned value and final globals compared exactly. Trace validation: the runs of the first "
